@@ -228,6 +228,7 @@ func TestC30_Fixed(t *testing.T) {
 	witnessF50(rec)
 	witnessF52(rec)
 	witnessF92(rec)
+	witnessF100(rec)
 	for _, c := range lrCases {
 		v := variants.Get(c.variant)
 		v.MustInit()
@@ -804,6 +805,7 @@ func TestC30(t *testing.T) {
 	witnessF50(rec)
 	witnessF52(rec)
 	witnessF92(rec)
+	witnessF100(rec)
 	cnt := newCounter()
 	cases := 0
 	rapid.Check(t, func(rt *rapid.T) {
